@@ -799,7 +799,7 @@ Proof. intros H u Hu a b d Harc. exact (proj1 (H u Hu) a b d Harc). Qed.
 (* ================================================================== *)
 
 (* one vehicle; unit 0 = stops 0 and 1 with the direct arc 0 -> 1; unit 1 = stop 2 *)
-Definition ox_stop : istop := mkIStop [] 0%Z [] None 0%Z [].
+Definition ox_stop : istop := mkIStop [] 0%Z [] None 0%Z [] None 0%Z 0%Z.
 Definition ox_inp : input :=
   mkInput [] [ox_stop; ox_stop; ox_stop] [dflt_vehicle]
           [mkIUnit [0; 1] [(0, 1, true)]; mkIUnit [2] []]
